@@ -158,9 +158,19 @@ def rescale_layer(ck, n_cases):
             fo = [ck.rng.choice([0.0, 1000.0, -250.5]) for _ in range(3)]
             rs = [ck.rng.choice([0.01, 0.002, 0.05]) for _ in range(3)]
             ro = [ck.rng.choice([0.0, 10.0, -3.0]) for _ in range(3)]
-        same = ck.rng.random() < 0.25
+        variant = ck.rng.choice(["same", "both", "both", "only_scales", "only_offsets", "one_axis"])
+        same = variant == "same"
         if same:
             rs, ro = fs, fo
+        elif variant == "only_scales":
+            ro = fo
+        elif variant == "only_offsets":
+            rs = fs
+        elif variant == "one_axis":
+            ax = ck.rng.randrange(3)
+            rs = [rs[i] if i == ax else fs[i] for i in range(3)]
+            ro = list(fo)
+        ck.count("rescale_variant:" + variant)
         las = fio.make_las(ck.rng, minor, fmt, ck.rng.choice([0, 2]), scales=fs, offsets=fo)
         for d in "XYZ":
             las.points.array[d] = np.array([ck.rng.randrange(-10**5, 10**5) for _ in range(len(las.points))], dtype="i4")
